@@ -344,3 +344,97 @@ Proof.
   - apply (C03_gc_agree 2 9 [] ex_vm h'); [apply C03_example_hyps|constructor|exact E].
   - vm_compute in E. injection E as <-. split; reflexivity.
 Qed.
+
+(* ====================================================================================
+   Work package c03c: allocation, calls, closures, continuations (Proofs/GcIsoAlloc.v,
+   GcIsoHmi.v, GcIsoPayload.v, GcIsoStep2.v, GcIsoCall.v, GcIsoClos.v, GcIsoAll.v,
+   GcIsoSched2.v, GcIsoBuiltin.v). *)
+From MW Require Proofs.GcIsoAlloc Proofs.GcIsoHmi Proofs.GcIsoPayload Proofs.GcIsoStep2 Proofs.GcIsoCall
+  Proofs.GcIsoClos Proofs.GcIsoAll Proofs.GcIsoSched2 Proofs.GcIsoEx2.
+
+(* extending a world by a pair of addresses: p1 not live, p2 not the image of a live address,
+   both allocated in the new heaps, holding related cells; every cell allocated before is
+   untouched.  The two addresses may differ: each heap hands out its own first free cell. *)
+Theorem C03_srel_alloc : forall W s1 s2 h1 h2 p1 p2,
+  GcIso.srel W s1 s2 -> ~ GcIso.wa W p1 -> (forall a, GcIso.wa W a -> GcIso.wf W a <> p2) ->
+  heap_inv h1 -> heap_inv h2 -> hlen h1 <= GcIso.NULL ->
+  (forall a, allocated (hp s1) a -> allocated h1 a /\ cell_at h1 a = cell_at (hp s1) a) ->
+  (forall a, allocated (hp s2) a -> allocated h2 a /\ cell_at h2 a = cell_at (hp s2) a) ->
+  allocated h1 p1 -> allocated h2 p2 ->
+  cell_at h2 p2 = GcIso.vmap (GcIso.wf W) (cell_at h1 p1) -> GcIso.vlive W (cell_at h1 p1) ->
+  GcIso.srel (GcIsoAlloc.wext W p1 p2) (VmBase.with_heap s1 h1) (VmBase.with_heap s2 h2).
+Proof. exact GcIsoAlloc.srel_alloc. Qed.
+Print Assumptions C03_srel_alloc.
+
+(* Heap::put on related values: both sides succeed, the results are related pointers in an
+   extended world (a symbol may be interned on one side and fresh on the other) *)
+Theorem C03_hput_iso : forall W v1 v2, GcIso.vr W v1 v2 ->
+  GcIsoPrim.sim W GcIso.vr (VmBase.hput v1) (VmBase.hput v2).
+Proof. exact GcIsoAlloc.sim_hput. Qed.
+Print Assumptions C03_hput_iso.
+
+Theorem C03_hmaybe_put_iso : forall W v1 v2, GcIso.vr W v1 v2 ->
+  GcIsoPrim.sim W GcIso.vr (VmBase.hmaybe_put v1) (VmBase.hmaybe_put v2).
+Proof. exact GcIsoPayload.sim_hmaybe_put. Qed.
+Print Assumptions C03_hmaybe_put_iso.
+
+(* fresh payloads: the id is the same on both sides and joins the world *)
+Theorem C03_env_new_iso : forall W l1 l2, GcIso.lr W l1 l2 ->
+  GcIsoPrim.sim W GcIso.vr (Vm.env_new l1) (Vm.env_new l2).
+Proof. exact GcIsoPayload.sim_env_new. Qed.
+Print Assumptions C03_env_new_iso.
+Theorem C03_vec_new_iso : forall W l1 l2, GcIso.lr W l1 l2 ->
+  GcIsoPrim.sim W GcIso.vr (VmBase.vec_new l1) (VmBase.vec_new l2).
+Proof. exact GcIsoPayload.sim_vec_new. Qed.
+Print Assumptions C03_vec_new_iso.
+Theorem C03_to_continuation_iso : forall W,
+  GcIsoPrim.sim W GcIso.vr Vm.to_continuation Vm.to_continuation.
+Proof. exact GcIsoPayload.sim_to_continuation. Qed.
+Print Assumptions C03_to_continuation_iso.
+(* restoring a live continuation whose saved %sp is inside its saved stack: the saved slots are
+   renamed pointwise *)
+Theorem C03_restore_continuation_iso : forall W cid, GcIso.wi W (GcIso.PCont cid) ->
+  GcIsoHmi.simg W (GcIsoCall.cont_ok cid) (@GcIsoPrim.anyr unit unit)
+                (Vm.restore_continuation cid) (Vm.restore_continuation cid).
+Proof. exact GcIsoCall.simg_restore_continuation. Qed.
+Print Assumptions C03_restore_continuation_iso.
+
+(* the whole instruction set.  [covered_all ob s1] adds to [covered]: CONS, VPUSH, VARARG, ENTER
+   unconditionally; CLOSURE when the argument indices of the closure map are inside the frame;
+   CALL when the callee is a closure, a lambda, a continuation whose saved %sp is inside its
+   saved stack, or a builtin b with [bsim ob b] (run_builtin ob b is a simulation and keeps the
+   heap invariant); TCALL the same, with a frame below %sp. *)
+Theorem C03_run_one_iso_all : forall ob W s1 s2,
+  GcIso.srel W s1 s2 -> GcIsoAll.covered_all ob s1 ->
+  GcIsoPrim.outcome W (@GcIsoPrim.eqr bool) (Vm.run_one ob s1) (Vm.run_one ob s2).
+Proof. exact GcIsoAll.run_one_iso_all. Qed.
+Print Assumptions C03_run_one_iso_all.
+
+Theorem C03_covered_covered_all : forall ob s, GcIsoStep.covered s -> GcIsoAll.covered_all ob s.
+Proof. exact GcIsoAll.covered_covered_all. Qed.
+Print Assumptions C03_covered_covered_all.
+
+Theorem C03_sched_unobservable_all : forall ob (gc : vm -> vm -> Prop),
+  (forall s1 s2 s2', GcIsoSched.related s1 s2 -> gc s2 s2' -> GcIsoSched.related s1 s2') ->
+  (forall s1 s2, GcIsoSched.related s1 s2 -> exists s2', gc s2 s2') ->
+  forall sched s1 s2,
+  GcIsoSched.related s1 s2 -> GcIsoSched2.plain_ok_all ob (length sched) s1 ->
+  match GcIsoSched.run_plain ob (length sched) s1 with
+  | VmBase.ROk b s1' => exists s2', GcIsoSched.run_sched ob gc sched s2 (VmBase.ROk b s2') /\ GcIsoSched.related s1' s2'
+  | VmBase.RErr e msg s1' => exists s2', GcIsoSched.run_sched ob gc sched s2 (VmBase.RErr e msg s2') /\ GcIsoSched.related s1' s2'
+  | _ => True
+  end.
+Proof. exact GcIsoSched2.sched_unobservable_all. Qed.
+Print Assumptions C03_sched_unobservable_all.
+
+(* non-vacuity: ax_vm1 and ax_vm2 run PUSH %acc; PUSH %acc; CONS; HALT; they are related, their
+   first free cells differ (1 / 2), all four instructions are covered; the left run allocates
+   cells 1 2 3 and ends with %acc = VPtr 3, the right one grows its heap and ends with VPtr 7 *)
+Example C03_example_alloc : forall ob,
+  GcIsoSched.related GcIsoEx2.ax_vm1 GcIsoEx2.ax_vm2 /\ GcIsoSched2.plain_ok_all ob 4 GcIsoEx2.ax_vm1
+  /\ (exists s', GcIsoSched.run_plain ob 4 GcIsoEx2.ax_vm1 = VmBase.ROk true s' /\ acc s' = VPtr 3 /\ hlen (hp s') = 4)
+  /\ (exists s', GcIsoSched.run_plain ob 4 GcIsoEx2.ax_vm2 = VmBase.ROk true s' /\ acc s' = VPtr 7 /\ hlen (hp s') = 8).
+Proof. exact GcIsoEx2.ax_ok. Qed.
+Example C03_example_alloc_free :
+  free_list (hp GcIsoEx2.ax_vm1) = [1; 2; 3] /\ free_list (hp GcIsoEx2.ax_vm2) = [2; 3].
+Proof. exact GcIsoEx2.ax_free. Qed.
